@@ -73,7 +73,7 @@ def main():
         else:
             v = QS + [g.fragment()]
         return v
-    n = 6000 if thorough else 900
+    n = 30000 if thorough else 900
     for fam in ('uri', 'iri'):
         g = Gen(random.Random(rnd.random()), fam)
         bufs = [g.parts() for _ in range(n)]
